@@ -128,7 +128,7 @@ def c01_case(args):
     cov = Coverage()
     nsat = 0
     for ii, inst in enumerate(instances(schema, tier)):
-        eng = Engine(timeout_ms=30000 if tier == "quick" else 300000, max_paths=5000)
+        eng = Engine(timeout_ms=240000 if tier == "quick" else 600000, max_paths=5000)
 
         def body():
             ForkingRange.work = [WORK_BUDGET]
@@ -247,7 +247,7 @@ def c02_case(args):
     for ii, inst in enumerate(instances(schema, tier)):
         canon = refspec.canon_bytes(schema, T, inst.value)
         # (a) encoder output == canonical bytes
-        eng = Engine(timeout_ms=30000 if tier == "quick" else 300000, max_paths=5000)
+        eng = Engine(timeout_ms=240000 if tier == "quick" else 600000, max_paths=5000)
         try:
             paths = []
             for pi, (kind, out, pc) in enumerate(_explore(eng, lambda: _budget(serde.encode, fcp, top, inst.value), inst.assume, cov)):
@@ -278,7 +278,7 @@ def c02_case(args):
             res["inconclusive"].append(f"{feats['desc']} inst{ii} encode: engine limit: {e}")
         finish_engine(res, eng)
         # (b) decoder recovers v from the canonical bytes
-        eng = Engine(timeout_ms=30000 if tier == "quick" else 300000, max_paths=5000)
+        eng = Engine(timeout_ms=240000 if tier == "quick" else 600000, max_paths=5000)
         data = _as_symbytes(canon)
         try:
             for pi, (kind, out, pc) in enumerate(_explore(eng, lambda: _budget(serde.decode, fcp, top, list(data), budget=decode_budget(len(data))), inst.assume, cov)):
@@ -389,7 +389,7 @@ def c16_case(args):
     top = schema.top
     T = ("struct", top)
     cov = Coverage()
-    tmo = 30000 if tier == "quick" else 300000
+    tmo = 240000 if tier == "quick" else 300000
     nobl = {"prefix": 0, "announce": 0, "arbitrary": 0}
     t_case = time.time()
     # thorough tier: the work on one schema shares a wall budget; what is cut off is counted (never silently)
